@@ -535,7 +535,7 @@ class Interp:
             raise Unsupported(f"keyword call {P.un(e)}")
         if fname == "isinstance":
             v = self.eval(e.args[0], env)
-            return self._isinstance(v, e.args[1])
+            return self._isinstance(v, e.args[1], env)
         if fname == "len":
             v = self.eval(e.args[0], env)
             if isinstance(v, Obj):
@@ -577,10 +577,20 @@ class Interp:
             return f(*args)
         raise Unsupported(f"call of {P.un(e.func)}")
 
-    def _isinstance(self, v, spec) -> bool:
+    def _isinstance(self, v, spec, env=None) -> bool:
         if isinstance(spec, ast.Tuple):
-            return any(self._isinstance(v, s) for s in spec.elts)
+            return any(self._isinstance(v, s, env) for s in spec.elts)
         name = P.dotted(spec)
+        # a local or a module-level constant holding the class(es): `kinds = (bool, type(None))`
+        if isinstance(spec, ast.Name) and name not in self.type_names and not isinstance(v, Obj):
+            try:
+                val = self.eval(spec, env if env is not None else {})
+            except (Unsupported, PyRaise, KeyError, NameError):
+                val = None
+            if isinstance(val, type) or (isinstance(val, tuple) and val and all(isinstance(x, type) for x in val)):
+                return isinstance(v, val)
+        if isinstance(spec, ast.Call) and P.un(spec) == "type(None)":
+            return v is None
         if name is None:
             raise Unsupported(f"isinstance spec {P.un(spec)}")
         if isinstance(v, Obj):
